@@ -336,3 +336,36 @@ def compare(api: Api, real: dict, mod: dict, brace: bool = True) -> str | None:
     if real.get('bits') is not None and mod.get('bits') is not None and real['bits'] != mod['bits']:
         return f"match bits {real['bits']} vs model {mod['bits']}"
     return None
+
+
+# --------------------------------------------------------------------------------------------------
+# K3 (split part): WcSplit.split vs Split.wcSplit
+
+SPLIT_ALPHA = 'a|\\[]()@!/-'
+
+
+def stream_split(sr, drv, tier: str) -> None:
+    import itertools
+    common.import_wcmatch()
+    from wcmatch import _wcparse as W
+    maxlen = 5 if tier == 'quick' else 6
+    flagsets = [W.SPLIT | a | b | c for a in (0, W.EXTMATCH) for b in (0, W.PATHNAME) for c in (W.FORCEUNIX, W.FORCEWIN)]
+    sr.note = (f'WcSplit(p, flags).split() vs Split.wcSplit on ALL strings over {SPLIT_ALPHA!r} up to length {maxlen} x '
+               '{EXTMATCH} x {PATHNAME} x {FORCEUNIX, FORCEWIN}; exact list of pieces (str; every 7th case also as bytes)')
+    cases = [''.join(t) for L in range(0, maxlen + 1) for t in itertools.product(SPLIT_ALPHA, repeat=L)]
+    sr.distinct = len(cases)
+    for fl in flagsets:
+        outs = drv.ask_many([f'split {fl} {common.enc(p)}' for p in cases])
+        for k, (p, o) in enumerate(zip(cases, outs)):
+            sr.evaluations += 1
+            if k % 7 == 0:
+                py = [x.decode('latin-1') for x in W.WcSplit(p.encode('latin-1'), fl).split()]
+            else:
+                py = list(W.WcSplit(p, fl).split())
+            mo = [common.dec(x) for x in o.split(' ')[1:]]
+            h = f'{len(py)} piece(s)' if len(py) < 4 else '4+ pieces'
+            sr.histogram[h] = sr.histogram.get(h, 0) + 1
+            if py != mo:
+                sr.disagree({'stream': 'K3-split', 'pattern': p, 'flags': fl, 'code': py, 'model': mo})
+            elif len(sr.samples) < 3 and len(py) == 2 and '(' in p and '[' in p:
+                sr.samples.append({'pattern': p, 'flags': fl, 'pieces': py})
